@@ -2,6 +2,7 @@
 Reader side (T1): every traversal API = the abstract document of a well-formed tape (DESIGN §4 T1).
 Producer side (tape = refTape(document)): P3/G1/S3, see C01/C17 lemmas shared through vsym.lemmas_e2."""
 from ..e2.checklib import Lemma, run_lemmas
+from ..lemmas_tape import multi_root_lemmas
 
 F = ["zz_verif_tape.go", "zz_verif_wf.go", "zz_verif_t1.go"]
 
@@ -24,4 +25,4 @@ def t1_lemmas(tier, sizes=None):
 def run(ctx):
     ctx.assume("tapes are produced by the shape generator harness/zz_verif_tape.go (complete for the README tape grammar "
                "within the size bound; NOP runs as written by DeleteElems/SetNull)")
-    run_lemmas(ctx, t1_lemmas(ctx.tier))
+    run_lemmas(ctx, multi_root_lemmas(ctx.tier) + t1_lemmas(ctx.tier))
